@@ -357,7 +357,21 @@ func C09(c *mon.Ctx) {
 		}
 		for k, doc := range [][]byte{b, render.PolicySetJSON(hids, hps)} {
 			src := []string{"own encoding", "harness encoding"}[k]
+			// the receiver is, in turn, the zero value, a fresh NewPolicySet() and a set already
+			// holding other policies (one of them under an id the document also uses): decoding
+			// yields the document's id -> policy mapping, whatever the receiver held before
 			var back cedar.PolicySet
+			switch (i + k) % 3 {
+			case 1:
+				back = *cedar.NewPolicySet()
+				src += ", into a fresh NewPolicySet()"
+			case 2:
+				used := cedar.NewPolicySet()
+				used.Add("stale-id", NewPolicy(bridge.ToPolicy(&model.Policy{Permit: false})))
+				used.Add(cedar.PolicyID(idPool[i%len(idPool)]), NewPolicy(bridge.ToPolicy(&model.Policy{Permit: false, Annots: []model.Annot{{Key: "stale", Val: "1"}}})))
+				back = *used
+				src += ", into a set already holding policies"
+			}
 			if err := back.UnmarshalJSON(doc); err != nil {
 				w.Violation("PolicySet JSON rejected ("+src+")", err.Error(), map[string]any{"json": string(doc)})
 				return
